@@ -96,9 +96,33 @@ def check_lossless(text, obs, tag):
     return toks
 
 
+_dict = {}
+
+
+def dict_fragments():
+    if 'v' not in _dict:
+        try:
+            from mon.gen import dictionary
+            w = [x for x in dictionary.as_text() if len(x) < 40]
+        except Exception:
+            w = []
+        out = []
+        for x in w:
+            out += [x, x + '\n', x + ' 5\n']
+        _dict['v'] = out
+    return _dict['v']
+
+
 def rand_text(rng):
     n = rng.randint(0, 40)
-    parts = [rng.choice(FRAGMENTS) for _ in range(n)]
+    df = dict_fragments()
+    parts = [rng.choice(df) if df and rng.random() < 0.12
+             else rng.choice(FRAGMENTS) for _ in range(n)]
+    if rng.random() < 0.1 and df:
+        # a diff section that starts with library-specific marker lines
+        parts.insert(rng.randint(0, len(parts)),
+                     '#...diff: length=99\n' + rng.choice(df).rstrip('\n') +
+                     '\n' + rng.choice(['literal 5\n', 'delta 7\n', 'x\n']))
     s = ''.join(parts)
     r = rng.random()
     if r < 0.15:
@@ -114,11 +138,19 @@ def benign_doc(rng):
         return s.replace('#.', '# .')
 
     def pre():
-        return {'text': clean(texts.text(rng, 'utf-8', lookalikes=False)),
-                'encoding': None, 'indent': rng.choice([0, 2, 4]),
+        t = clean(texts.text(rng, 'utf-8', lookalikes=False))
+        mt = rng.choice([None, 'text/markdown', 'text/plain'])
+        if mt == 'text/markdown' and rng.random() < 0.5:
+            # markdown with fenced blocks in languages a highlighter knows,
+            # with bodies that are not valid in them
+            t = ('Title\n=====\n\n```json\n{bad json,,\n```\n\n' +
+                 rng.choice(['```python\n$$$ ???\n```\n',
+                             '```diff\n@@ nope\n```\n',
+                             '~~~c\n#include <x>\n~~~\n']) + t)
+        return {'text': t, 'encoding': None,
+                'indent': rng.choice([0, 2, 4]),
                 'line_endings': rng.choice([None, 'unix']),
-                'mimetype': rng.choice([None, 'text/markdown']),
-                'explicit': True}
+                'mimetype': mt, 'explicit': True}
 
     def meta():
         obj = texts.json_object(rng)
@@ -131,6 +163,17 @@ def benign_doc(rng):
         return m
 
     def diff():
+        r0 = rng.random()
+        if r0 < 0.08:
+            # the whole diff is one marker line
+            return {'data': rng.choice([b'delta 5\n', b'...\n', b'delta 0\n',
+                                        b'literal 1\n', b'x\n', b'\n']),
+                    'encoding': None, 'line_endings': None,
+                    'type': rng.choice([None, 'binary'])}
+        if r0 < 0.16:
+            return {'data': b'GIT binary patch\n' + rng.choice(
+                [b'literal 5\nzcmb\n', b'delta 12\nzzz\n\nliteral 3\nx\n']),
+                    'encoding': None, 'line_endings': None, 'type': 'binary'}
         if rng.random() < 0.15:
             nl = rng.choice(['\n', '\r\n'])
             body = nl.join(['delta %d' % rng.randrange(99), 'zabc',
